@@ -40,6 +40,9 @@ def remove_signature(text):
     if not signed:
         return text
     unsigned = signed.groupdict().get('cleartext')
+    if unsigned is None:
+        # a signature block without a readable signed message before it
+        return text
     return unsigned
 
 # A re.VERBOSE regular expression to parse a PGP signed message in its parts.
